@@ -195,7 +195,8 @@ def text_oracle(drv, kind, quantity, text, expected: complex, opts, w):
                 if deg: da = min(da, abs(da - 360.0))
                 else: da = min(da, abs(da - 2 * math.pi))
                 # the angle of the solution carries the conditioning of the solve: 1e-9 relative on the value
-                if da > 0.5 * 10.0 ** -nd + (1e-7 if not deg else 1e-5): fails.append('angle_accuracy')
+                noise = opts.get('_noise', 0.0)
+                if da > 0.5 * 10.0 ** -nd + (1e-7 if not deg else 1e-5) + (math.degrees(noise) if deg else noise): fails.append('angle_accuracy')
                 else:
                     f = c18.angle_digits_failure(max(da - (1e-7 if not deg else 1e-5), 0.0), ang, p, nd)
                     if f: fails.append(f)
@@ -291,8 +292,13 @@ def judge_along_arrow(drv, out, label, quantity, text, a, b, phi_a, phi_b, i_ab,
         out.skip('arrow_not_found'); return
     tail, head = ar
     along = float(np.dot(head - tail, np.array(b) - np.array(a)))
-    if abs(along) < 1e-9:
-        out.skip('arrow_perpendicular'); return
+    if abs(along) < 1e-6 * float(np.linalg.norm(head - tail)) * float(np.linalg.norm(np.array(b) - np.array(a))) \
+            or abs(along) < 0.9 * float(np.linalg.norm(head - tail)) * float(np.linalg.norm(np.array(b) - np.array(a))):
+        # the arrow does not lie along the annotated element at all
+        out.spec_fail(dict(op='arrow', quantity=quantity, kind=kind, symptom='arrow_perpendicular', **canon_extra),
+                      f'{what}: the arrow drawn (tail {tail}, head {head}) does not lie along the element {a} → {b}', case,
+                      impl=text, spec=dict(arrow=[list(map(float, tail)), list(map(float, head))]), case=case)
+        return
     fwd = along > 0
     want = (phi_a - phi_b) if quantity == 'voltage' else i_ab
     if not fwd: want = -want
@@ -300,8 +306,7 @@ def judge_along_arrow(drv, out, label, quantity, text, a, b, phi_a, phi_b, i_ab,
         out.skip('numerically_zero_quantity'); return
     fails, _ = text_oracle(drv, kind, quantity, text, complex(want), opts, w)
     # findings of the number format itself are reported by the adapter path; here only the direction matters
-    fails = [f for f in fails if f.split(':')[-1] not in ('omitted_inside_range', 'mantissa_range', 'saturated_inside_range',
-                                                          'finite_beyond_range', 'angle_fewer_digits_than_precision')]
+    fails = [f for f in fails if f.split(':')[-1] not in FORMAT_FINDINGS]
     if fails and c18.region(want.real if isinstance(want, complex) else want, opts['precision']) == 'rounds_up_to_one':
         fails = []
     if fails:
@@ -314,40 +319,72 @@ def judge_along_arrow(drv, out, label, quantity, text, a, b, phi_a, phi_b, i_ab,
     else:
         out.nontrivial(('arrow', quantity, kind, fwd, tuple(sorted(canon_extra.items()))))
 
+def make_symbol(elm, e, rev):
+    """every annotatable two-terminal symbol of SimpleCircuit.Elements"""
+    k = e['kind']; kw = dict(name=e['name'])
+    if rev is not None: kw['reverse'] = rev
+    if k == 'R': return elm.Resistor(R=e['value'], **kw)
+    if k == 'G': return elm.Conductance(G=e['value'], **kw)
+    if k == 'C': return elm.Capacitor(C=e['value'], **kw)
+    if k == 'L': return elm.Inductance(L=e['value'], **kw)
+    if k == 'Z': return elm.Impedance(Z=complex(*e['value']), **kw)
+    if k == 'LAMP': return elm.Lamp(V_ref=e['value'][0], P_ref=e['value'][1], **kw)
+    if k == 'SWO': return elm.Switch(state=elm.SwitchState.OPEN, **kw)
+    if k == 'SWC': return elm.Switch(state=elm.SwitchState.CLOSED, **kw)
+    if k == 'SC': return elm.LabeledLine(**kw)
+    if k == 'V': return elm.VoltageSource(V=e['value'], **kw)
+    if k == 'I': return elm.CurrentSource(I=e['value'], **kw)
+    if k == 'VC': return elm.ComplexVoltageSource(V=complex(*e['value']), **kw)
+    if k == 'IC': return elm.ComplexCurrentSource(I=complex(*e['value']), **kw)
+    if k == 'VAC': return elm.ACVoltageSource(V=e['value'], w=e['w'], phi=e['phi'], **kw)
+    if k == 'IAC': return elm.ACCurrentSource(I=e['value'], w=e['w'], phi=e['phi'], **kw)
+    if k in ('VRECT', 'VTRI', 'VSAW'):
+        cls = dict(VRECT=elm.RectVoltageSource, VTRI=elm.TriangleVoltageSource, VSAW=elm.SawtoothVoltageSource)[k]
+        return cls(V=e['value'], w=e['w'], phi=e['phi'], **kw)
+    if k in ('IRECT', 'ITRI', 'ISAW'):
+        cls = dict(IRECT=elm.RectCurrentSource, ITRI=elm.TriangleCurrentSource, ISAW=elm.SawtoothCurrentSource)[k]
+        return cls(I=e['value'], w=e['w'], phi=e['phi'], **kw)
+    if k == 'VLIN': return elm.RealVoltageSource(V=e['value'][0], R=e['value'][1], **kw)
+    if k == 'ILIN': return elm.RealCurrentSource(I=e['value'][0], R=e['value'][1], **kw)
+    raise ValueError(k)
+
 def check_arrows(ctx, out, g):
-    """geometric, convention-free: source S from P0 to P1 (direction d1), element X from P1 to P2 (direction d2), wire back,
-    ground at P0, labelled nodes at P1 and P2; every annotation of S and X in every direction"""
+    """geometric, convention-free: symbol S from P0 to P1 (direction d1), symbol X from P1 to P2 (direction d2), a return
+    resistor R0 from P2 back to P0, ground at P0, a labelled node at P1, a plain node at P2, and an unrelated wire far away
+    drawn LAST in a direction of its own.  The loop current P0→P1→P2→P0 is φ(P2)/R0 whatever S and X are; every voltage /
+    current annotation of S, X (and R0) must carry the quantity along the arrow actually drawn; potentials at the labelled
+    node, the plain node and the ground symbol must be the node potentials."""
     import CircuitCalculator.SimpleCircuit.Elements as elm
     import CircuitCalculator.SimpleCircuit.DiagramSolution as ds
     from CircuitCalculator.SimpleCircuit.DiagramTranslator import circuit_translator
     drv = ctx.driver
     if drv is None: return
     u = 6.0
-    P0 = np.array((0.0, 0.0)); P1 = P0 + u * np.array(STEP[g['d1']]); P2 = P1 + u * np.array(STEP[g['d2']])
-    if np.allclose(P2, P0): return
+    if tuple(np.array(STEP[g['d1']]) + np.array(STEP[g['d2']])) == (0.0, 0.0): return
     w = g['w']
-    src, x = g['src'], g['x']
-    def mk(e, rev):
-        k = e['kind']; kw = dict(name=e['name'], reverse=rev)
-        if k == 'R': return elm.Resistor(R=e['value'], **kw)
-        if k == 'C': return elm.Capacitor(C=e['value'], **kw)
-        if k == 'L': return elm.Inductance(L=e['value'], **kw)
-        if k == 'Z': return elm.Impedance(Z=complex(*e['value']), **kw)
-        if k == 'V': return elm.VoltageSource(V=e['value'], **kw)
-        if k == 'I': return elm.CurrentSource(I=e['value'], **kw)
-        if k == 'VAC': return elm.ACVoltageSource(V=e['value'], w=e['w'], phi=e['phi'], **kw)
-        raise ValueError(k)
+    src, x = g['src'], g['x']; r0 = g.get('r0', 5.0)
+    def far_end(el, near):
+        """the terminal of a placed two-terminal symbol that is not at `near` (geometric, whatever start/end mean)"""
+        ends = [np.array(el.absanchors['start'], dtype=float), np.array(el.absanchors['end'], dtype=float)]
+        return max(ends, key=lambda q: float(np.linalg.norm(q - near)))
     try:
-        d = elm.Schematic(unit=u, show=False)
-        S = mk(src, g['srev']); S.at(tuple(P0)); getattr(S, g['d1'])(); d.add(S)
-        X = mk(x, g['xrev']); X.at(tuple(P1)); getattr(X, g['d2'])(); d.add(X)
-        d.add(elm.Line().endpoints(tuple(P2), tuple(P0)))
-        d.add(elm.Ground().at(tuple(P0)))
-        d.add(elm.LabelNode(name='n1').at(tuple(P1))); d.add(elm.LabelNode(name='n2').at(tuple(P2)))
-        circuit = circuit_translator(d)
+        with contextlib.redirect_stdout(io.StringIO()):
+            d = elm.Schematic(unit=u, show=False)
+            P0 = np.array((0.0, 0.0))
+            S = make_symbol(elm, src, g['srev']); S.at(tuple(P0)); getattr(S, g['d1'])(); d.add(S)
+            P1 = far_end(S, P0)
+            X = make_symbol(elm, x, g['xrev']); X.at(tuple(P1)); getattr(X, g['d2'])(); d.add(X)
+            P2 = far_end(X, P1)
+            if np.allclose(P2, P0) or np.allclose(P1, P0) or np.allclose(P2, P1):
+                out.skip('degenerate_geometry'); return
+            d.add(elm.Resistor(R=r0, name='R0').endpoints(tuple(P2), tuple(P0)))
+            d.add(elm.Ground().at(tuple(P0)))
+            d.add(elm.LabelNode(name='n1').at(tuple(P1))); d.add(elm.Node(name='n2').at(tuple(P2)))
+            if g.get('last'):
+                far = elm.Line().at((40.0, 40.0)); getattr(far, g['last'])(); d.add(far)       # drawn last, unrelated
+            circuit = circuit_translator(d)
     except Exception as e:
-        out.skip(f'schematic_not_built:{type(e).__name__}'); return
-    Zx = impedance_of(x, w)
+        out.skip(f'schematic_not_built:{src["kind"]}-{x["kind"]}:{type(e).__name__}'); out.notes.append(f'{src["kind"]}-{x["kind"]}: {e}'[:200]); return
     for kind in g['kinds']:
         opts = dict(g['opts'][kind])
         try:
@@ -356,61 +393,124 @@ def check_arrows(ctx, out, g):
             truth = truth_solution(circuit, kind, w)
             phi = {'P0': 0j, 'P1': complex(truth.get_potential('n1')), 'P2': complex(truth.get_potential('n2'))}
         except Exception as e:
-            out.skip(f'solution_failed:{type(e).__name__}'); continue
-        if Zx is None or Zx == 0: continue
-        i_loop = (phi['P1'] - phi['P2']) / Zx            # through X from P1 to P2, hence through S from P0 to P1
-        for el, a, b, pa, pb, erev, ekind in (('S', P0, P1, 'P0', 'P1', g['srev'], 'source'), ('X', P1, P2, 'P1', 'P2', g['xrev'], 'passive')):
-            name = src['name'] if el == 'S' else x['name']
+            out.skip(f'solution_failed:{src["kind"]}-{x["kind"]}:{type(e).__name__}'); continue
+        if not all(np.isfinite([phi['P1'].real, phi['P1'].imag, phi['P2'].real, phi['P2'].imag])):
+            out.skip('solution_not_finite'); continue
+        i_loop = (phi['P2'] - phi['P0']) / r0              # through R0 from P2 to P0, hence P0→P1 through S and P1→P2 through X
+        # ---- potentials at the three kinds of node symbols
+        for nname, pkey in (('n1', 'P1'), ('n2', 'P2'), ('0', 'P0')):
+            out.evaluations += 1
+            out.count(f'arrow:{kind}:potential')
+            case = dict(arrows=g, kind=kind, name=nname, quantity='potential')
+            try:
+                text = label_text(sol.draw_potential(nname))
+            except Exception as e:
+                out.spec_fail(dict(op='arrow', symptom='raises', exc=type(e).__name__, quantity='potential', kind=kind),
+                              f'draw_potential({nname!r}) raises {type(e).__name__}: {e}', case, impl=repr(e), case=case)
+                continue
+            want = phi[pkey]
+            if abs(want) < 1e-12:
+                r = drv.call('fmt_parse', unit='V', s=text.split('·')[0].split('∠')[0])['parsed'] if 'j' not in text else None
+                if r is not None and not r.get('inf') and Fraction(r['value']) != 0:
+                    out.spec_fail(dict(op='arrow', quantity='potential', kind=kind, symptom='nonzero_text_for_zero'),
+                                  f'{kind} potential at {nname!r}: {text!r} displayed for 0', case, impl=text, case=case)
+                continue
+            fails, _ = text_oracle(drv, kind, 'potential', text, want, opts, w)
+            fails = [f for f in fails if f.split(':')[-1] not in FORMAT_FINDINGS]
+            if fails and c18.region(want.real, opts['precision']) != 'rounds_up_to_one':
+                out.spec_fail(dict(op='arrow', quantity='potential', kind=kind, symptom='+'.join(sorted(set(f.split(':')[-1] for f in fails))),
+                                   node=('ground' if nname == '0' else 'label_node' if nname == 'n1' else 'node')),
+                              f'{kind} potential at {nname!r}: {text!r} displayed for {want!r}: ' + ', '.join(fails), case, impl=text, case=case)
+            else:
+                out.nontrivial(('potential', kind, nname))
+        # ---- voltages and currents along the arrows
+        for el, a, b, pa, pb, erev, ekind in (('S', P0, P1, 'P0', 'P1', g['srev'], src['kind']), ('X', P1, P2, 'P1', 'P2', g['xrev'], x['kind']),
+                                               ('R0', P2, P0, 'P2', 'P0', False, 'R')):
+            name = src['name'] if el == 'S' else x['name'] if el == 'X' else 'R0'
             for quantity in ('voltage', 'current'):
                 for arev in (False, True):
                     for end in ((False, True) if quantity == 'current' else (None,)):
+                        if el == 'R0' and (arev or end): continue
                         out.evaluations += 1
                         out.count(f'arrow:{kind}:{quantity}')
+                        out.count(f'arrow:symbol:{ekind}')
                         case = dict(arrows=g, kind=kind, name=name, quantity=quantity, reverse=arev, end=end)
                         try:
                             lab = sol.draw_voltage(name, reverse=arev) if quantity == 'voltage' else sol.draw_current(name, reverse=arev, end=end)
                             d.add(lab)
                         except Exception as e:
-                            out.spec_fail(dict(op='arrow', symptom='raises', exc=type(e).__name__, quantity=quantity, kind=kind),
-                                          f'draw_{quantity}({name!r}) raises {type(e).__name__}: {e}', case, impl=repr(e), case=case)
+                            out.spec_fail(dict(op='arrow', symptom='raises', exc=type(e).__name__, quantity=quantity, kind=kind, symbol=ekind),
+                                          f'draw_{quantity}({name!r}) of a {ekind} symbol raises {type(e).__name__}: {e}', case, impl=repr(e), case=case)
                             continue
-                        judge_along_arrow(drv, out, lab, quantity, label_text(lab), a, b, phi[pa], phi[pb], i_loop, kind, opts, w,
-                                          dict(element=ekind, element_reversed=bool(erev), annotation_reversed=arev, end=bool(end),
-                                               direction=g['d1'] if el == 'S' else g['d2']),
-                                          f'{kind} {quantity} annotation of {ekind} {name!r} (element reverse={erev}, annotation reverse={arev}'
-                                          + (f', end={end}' if end is not None else '') + f', drawn {g["d1"] if el == "S" else g["d2"]})', case)
+                        scale = max(abs(phi['P1']), abs(phi['P2'])) if quantity == 'voltage' else max(abs(phi['P1']), abs(phi['P2'])) / r0
+                        q_here = (phi[pa] - phi[pb]) if quantity == 'voltage' else i_loop
+                        if abs(q_here) < 1e-7 * max(scale, 1e-300):
+                            out.skip('numerically_zero_quantity'); continue
+                        # a closed switch is a 1e-12 Ω resistor: the nodal matrix is ill-conditioned (errors ~1e-3); only two
+                        # digits of such a loop are judged
+                        jopts = dict(opts, precision=min(opts['precision'], 2), _noise=2e-3) if 'SWC' in (src['kind'], x['kind']) else opts
+                        judge_along_arrow(drv, out, lab, quantity, label_text(lab), a, b, phi[pa], phi[pb], i_loop, kind, jopts, w,
+                                          dict(element='source' if ekind in SOURCE_KINDS else 'passive', symbol=ekind,
+                                               element_reversed=bool(erev), annotation_reversed=arev, end=bool(end),
+                                               direction=g['d1'] if el == 'S' else g['d2'] if el == 'X' else 'return',
+                                               last=g.get('last') or 'none'),
+                                          f'{kind} {quantity} annotation of {ekind} symbol {name!r} (element reverse={erev}, annotation reverse={arev}'
+                                          + (f', end={end}' if end is not None else '') + f', drawn {g["d1"] if el == "S" else g["d2"] if el == "X" else "back"}, '
+                                          f'last element drawn {g.get("last")})', case)
+
+SOURCE_KINDS = ('V', 'I', 'VC', 'IC', 'VAC', 'IAC', 'VRECT', 'VTRI', 'VSAW', 'IRECT', 'ITRI', 'ISAW', 'VLIN', 'ILIN')
+FORMAT_FINDINGS = ('omitted_inside_range', 'mantissa_range', 'saturated_inside_range', 'finite_beyond_range',
+                   'angle_fewer_digits_than_precision')
 
 def arrow_descs(rng, quick):
     import itertools
     combos = [(d1, d2, sr, xr) for d1, d2, sr, xr in itertools.product(STEP, STEP, (False, True), (False, True))
               if tuple(np.array(STEP[d1]) + np.array(STEP[d2])) != (0.0, 0.0)]
-    if quick:
-        # every direction and every reverse combination occurs; 10 of the 48 drawings per run
-        rng.shuffle(combos)
-        must = []
-        for want in ((False, True), (True, True), (True, False), (False, False)):
-            must.append(next(c for c in combos if (c[2], c[3]) == want))
-        combos = must + [c for c in combos if c not in must][:6]
+    rng.shuffle(combos)
+    w = 100.0
+    dc_v = [dict(kind='V', name='S', value=12.0), dict(kind='VLIN', name='S', value=[10.0, 2.0])]
+    dc_i = [dict(kind='I', name='S', value=2.0), dict(kind='ILIN', name='S', value=[2.0, 50.0])]
+    ac_v = [dict(kind='VAC', name='S', value=10.0, w=w, phi=0.5), dict(kind='VC', name='S', value=[3.0, 4.0]),
+            dict(kind='VRECT', name='S', value=12.0, w=w, phi=0.0), dict(kind='VTRI', name='S', value=12.0, w=w, phi=0.3),
+            dict(kind='VSAW', name='S', value=12.0, w=w, phi=0.0)]
+    ac_i = [dict(kind='IAC', name='S', value=1.0, w=w, phi=-1.0), dict(kind='IC', name='S', value=[1.0, 1.0]),
+            dict(kind='IRECT', name='S', value=1.0, w=w, phi=0.0), dict(kind='ITRI', name='S', value=1.0, w=w, phi=0.0),
+            dict(kind='ISAW', name='S', value=1.0, w=w, phi=0.2)]
+    x_any = [dict(kind='R', name='X', value=4.0), dict(kind='G', name='X', value=0.5), dict(kind='LAMP', name='X', value=[12.0, 24.0]),
+             dict(kind='SWC', name='X'), dict(kind='SC', name='X'), dict(kind='Z', name='X', value=[3.0, 4.0]),
+             dict(kind='L', name='X', value=0.05)]
+    x_vonly = [dict(kind='SWO', name='X'), dict(kind='C', name='X', value=2e-4), dict(kind='I', name='X', value=0.5),
+               dict(kind='ILIN', name='X', value=[0.5, 40.0])]
+    x_ionly = [dict(kind='VLIN', name='X', value=[5.0, 1.0]), dict(kind='V', name='X', value=3.0)]
+    plan = []
+    for s in dc_v: plan += [(s, x, 0.0) for x in x_any + x_vonly if x['kind'] not in ('C',)]
+    for s in dc_i: plan += [(s, x, 0.0) for x in x_any + x_ionly]
+    for s in ac_v: plan += [(s, x, w) for x in x_any + [x_vonly[0], x_vonly[1]]]
+    for s in ac_i: plan += [(s, x, w) for x in x_any]
+    rng.shuffle(plan)
+    n = 14 if quick else len(plan)
+    # the quick tier still draws every symbol kind at least once over a few runs; every run contains a symbol without
+    # `v_label` anchor (switch, labelled line, linear current source) and a reversed passive
+    must = [pl for pl in plan if pl[1]['kind'] in ('SWO', 'SWC', 'SC')][:2] + [pl for pl in plan if pl[0]['kind'] == 'ILIN'][:1]
+    plan = must + [pl for pl in plan if pl not in must][:max(n - len(must), 0)]
     out = []
-    for k, (d1, d2, sr, xr) in enumerate(combos):
-        ac = (k % 2 == 1)
+    for k, (s, x, ww) in enumerate(plan):
+        d1, d2, sr, xr = combos[k % len(combos)]
         p = rng.randint(2, 5)
+        ac = ww > 0
         if ac:
-            w = rng.choice([100.0, 1000.0])
-            src = dict(kind='VAC', name='S', value=10.0, w=w, phi=rng.choice([0.0, 0.5, -1.0]))
-            x = rng.choice([dict(kind='R', name='X', value=4.0), dict(kind='C', name='X', value=2e-5 if w == 1000.0 else 2e-4),
-                            dict(kind='L', name='X', value=0.05), dict(kind='Z', name='X', value=[3.0, 4.0])])
             kinds = ['complex', 'time']
             opts = dict(complex=dict(precision=p, polar=rng.random() < 0.5, deg=rng.random() < 0.5),
                         time=dict(precision=3, sin=rng.random() < 0.4, deg=rng.random() < 0.5, hertz=rng.random() < 0.3))
         else:
-            w = 0.0
-            src = rng.choice([dict(kind='V', name='S', value=10.0), dict(kind='I', name='S', value=2.0)])
-            x = dict(kind='R', name='X', value=4.0)
             kinds = ['real', 'complex', 'time'] if k % 4 == 0 else ['real']
             opts = dict(real=dict(precision=p), complex=dict(precision=p, polar=False, deg=False),
                         time=dict(precision=3, sin=False, deg=False, hertz=False))
-        out.append(dict(d1=d1, d2=d2, srev=sr, xrev=xr, w=w, src=src, x=x, kinds=kinds, opts=opts))
+        # symbols that do not take a `reverse` argument are drawn as they are
+        sr_ = None if s['kind'] in ('VLIN', 'ILIN') else sr
+        xr_ = None if x['kind'] in ('VLIN', 'ILIN') else xr
+        out.append(dict(d1=d1, d2=d2, srev=sr_, xrev=xr_, w=ww, src=s, x=x, kinds=kinds, opts=opts, r0=5.0,
+                        last=rng.choice(['up', 'down', 'left', 'right'])))
     return out
 
 # --------------------------------------------------------------------------- direct adapter path
